@@ -145,3 +145,54 @@ Definition calls_atomic (l : list lev) : bool :=
     negb (existsb is_lockop mid) && locked_before_first_call HNone l.
 Definition all_paths_calls_atomic (ms : list (string * list (list lev))) : bool :=
   forallb (fun x => is_init (fst x) || forallb calls_atomic (snd x)) ms.
+
+(* ---- name-free version of one_lock: the methods of one owner (a type, or a package for plain
+   functions) never name two different locks.  The extractor finds locks and shared objects by
+   their declared types, so renaming a lock variable regenerates facts that still pass; a second
+   lock guarding the same object through another method of the owner does not. ---- *)
+Fixpoint owner_aux (s : string) : option string :=
+  match s with
+  | EmptyString => None
+  | String c r => match owner_aux r with
+                  | Some p => Some (String c p)
+                  | None => if Ascii.eqb c (Ascii.ascii_of_nat 46) then Some EmptyString else None
+                  end
+  end.
+Definition owner (s : string) : string := match owner_aux s with Some p => p | None => EmptyString end.
+Definition lock_names (l : list lev) : list string :=
+  flat_map (fun e => match e with LLock m | LUnlock m | LRLock m | LRUnlock m => [m] | _ => [] end) l.
+Definition method_locks (x : string * list (list lev)) : list string := flat_map lock_names (snd x).
+Definition all_paths_owner_one_lock (ms : list (string * list (list lev))) : bool :=
+  forallb (fun x => is_init (fst x) ||
+    forallb (fun y => is_init (fst y) || negb (String.eqb (owner (fst x)) (owner (fst y))) ||
+      forallb (fun a => forallb (String.eqb a) (method_locks y)) (method_locks x)) ms) ms.
+
+Lemma one_lock_lock_names m l : one_lock m l = forallb (String.eqb m) (lock_names l).
+Proof.
+  induction l as [|e r IH]; [reflexivity|].
+  unfold one_lock, lock_names in *. cbn [forallb flat_map]. rewrite forallb_app, <- IH.
+  destruct e; cbn [forallb]; rewrite ?andb_true_r; reflexivity.
+Qed.
+
+(* what the theorems of C20 need: every method has ONE lock that all its paths name *)
+Lemma owner_one_lock_method ms x :
+  all_paths_owner_one_lock ms = true -> In x ms -> is_init (fst x) = false ->
+  exists m, paths_one_lock m (snd x) = true.
+Proof.
+  intros H Hx Hi. unfold all_paths_owner_one_lock in H. rewrite forallb_forall in H.
+  specialize (H x Hx). rewrite Hi in H. cbn [orb] in H. rewrite forallb_forall in H.
+  specialize (H x Hx). rewrite Hi, String.eqb_refl in H. cbn [orb negb] in H.
+  destruct (method_locks x) as [|m rest] eqn:E.
+  - exists EmptyString. unfold paths_one_lock. rewrite forallb_forall. intros p Hp.
+    rewrite one_lock_lock_names.
+    assert (lock_names p = []) as ->; [|reflexivity].
+    unfold method_locks in E. destruct (lock_names p) as [|a r] eqn:Ep; [reflexivity|].
+    exfalso. assert (In a (flat_map lock_names (snd x))) as Hin
+      by (apply in_flat_map; exists p; split; [exact Hp|rewrite Ep; left; reflexivity]).
+    rewrite E in Hin. destruct Hin.
+  - exists m. unfold paths_one_lock. rewrite forallb_forall. intros p Hp.
+    rewrite one_lock_lock_names. rewrite forallb_forall. intros a Ha.
+    rewrite forallb_forall in H. specialize (H m (or_introl eq_refl)).
+    rewrite forallb_forall in H. apply H. rewrite <- E. unfold method_locks.
+    apply in_flat_map. exists p. split; assumption.
+Qed.
